@@ -176,7 +176,15 @@ def materialize(case):
 def c04_case(draw):
     case = dict(draw(st.one_of(directed_pair(), directed_pair(), gens.small_pair(),
                                gens.family_pair(sizes=((2, 8), (9, 64), (65, 2000), (2001, 5000)), max_product=10**7))))
-    case['r'] = draw(ratio())
+    # most ratios are drawn so that the quota is at least 1 (quota 0 means "all rows" and has no unwritten tail)
+    _, X0 = materialize(case)
+    n0, k0 = len(X0), len(set(X0.tolist()))
+    lo = (k0 + 0.5) / n0 if n0 else 1.0
+    if lo < 0.99 and draw(st.integers(0, 3)) > 0:
+        case['r'] = draw(st.floats(min_value=float(np.float32(lo)), max_value=float(np.float32(0.995)), width=32,
+                                   allow_nan=False).map(lambda r: float(np.float32(r))))
+    else:
+        case['r'] = draw(ratio())
     case['c'] = draw(st.booleans())
     case['heaps'] = [draw(heap_history()) for _ in range(3)]
     case['alt'] = draw(st.integers(0, 2**31 - 1))
